@@ -3,8 +3,9 @@ package referrersfam
 // Capability rounds (C14, last clause): one Repository whose Referrers-API
 // capability is not configured; concurrent SetReferrersCapability, Referrers,
 // Push-with-subject and Delete-of-a-referrer calls, with the registry allowed
-// to change its own answer in the middle (flip).  The HTTP exchanges (and the
-// calls that make none) are scheduled at the gate under synctest.  Every
+// to change its own answer in the middle (flip).  The HTTP exchanges and the
+// library's verif-tagged scheduling points (capability loads and
+// compare-and-swaps, Merge) are released one at a time by vh.PSched.  Every
 // exchange is logged with the call that issued it; CapabilityMon.tla derives
 // from them what each returned call proves about the capability.
 
@@ -18,13 +19,13 @@ import (
 	"os"
 	"runtime"
 	"strings"
-	"sync"
 	"testing"
-	"testing/synctest"
+	"time"
 
 	ocispec "github.com/opencontainers/image-spec/specs-go/v1"
 	"oras.land/oras-go/v2/errdef"
 	"oras.land/oras-go/v2/registry/remote"
+	"oras.land/oras-go/v2/verifhook"
 	"verif/harness/regfake"
 	"verif/harness/vh"
 )
@@ -72,13 +73,12 @@ func runCap(t *testing.T, sc *CapScenario, tr *vh.Tracer) (hang bool) {
 			kinds = append(kinds, op.Kind)
 		}
 		tr.Emit(map[string]any{"e": "init", "truth": sc.Truth, "kinds": kinds, "nops": len(sc.Ops)})
-		s := &vh.Sched{}
-		reg.Gate = func(method, route, ref string) {
-			if ref == zeroDigest {
-				return // pingReferrers sends this while holding a mutex: parking it would block its waiters outside the gate
-			}
-			s.Gate(method+" "+route, 0)
-		}
+		// scheduling points: every HTTP exchange and the library's own points (loads and compare-and-swaps of the
+		// capability, the Merge protocol); PSched copes with pingReferrers holding its mutex across a request
+		s := &vh.PSched{Quiet: time.Duration(vh.EnvInt("VH_QUIETUS", 300)) * time.Microsecond}
+		reg.Gate = func(method, route, ref string) { s.Point(method + " " + route) }
+		verifhook.Set(s.Point)
+		defer verifhook.Set(nil)
 		reg.Log = func(x regfake.Exchange) {
 			if x.Actor != "" {
 				tr.Emit(map[string]any{"e": "x", "actor": x.Actor, "method": x.Method, "route": x.Route, "ref": refKind(x.Route, x.Ref), "status": x.Status})
@@ -110,43 +110,34 @@ func runCap(t *testing.T, sc *CapScenario, tr *vh.Tracer) (hang bool) {
 			}
 			return "ok"
 		}
-		done := make(chan struct{})
-		var wg sync.WaitGroup
 		for i, op := range sc.Ops {
 			i, op := i, op
-			wg.Add(1)
-			go func() {
-				defer wg.Done()
+			s.Go(i, func() {
 				actor := "op" + string(rune('1'+i))
 				if op.Kind == "flip" {
-					s.Gate("flip", i)
 					reg.SetReferrers(!sc.Truth)
 					tr.Emit(map[string]any{"e": "flip", "op": i + 1})
 					return
 				}
-				if op.Kind == "setT" || op.Kind == "setF" {
-					s.Gate("setcap", i)
-				}
 				res := call(actor, op)
 				tr.Emit(map[string]any{"e": "ret", "op": i + 1, "actor": actor, "kind": op.Kind, "r": op.R, "res": res})
-			}()
+			})
 		}
-		go func() { wg.Wait(); close(done) }()
 		rng := rand.New(rand.NewSource(sc.Seed))
-		hang = s.Run(done, func(step int, pend []*vh.Op) int {
-			if i := len(s.Choices); i < len(sc.Prefix) {
-				return sc.Prefix[i]
+		hang = s.Run(func(step int, pend []*vh.POp) int {
+			if step < len(sc.Prefix) {
+				return sc.Prefix[step]
 			}
 			return rng.Intn(len(pend))
-		}, nil)
+		})
 		sc.Choices = s.Choices
 		if hang {
 			tr.Emit(map[string]any{"e": "hang"})
 			s.ReleaseAll()
-			synctest.Wait()
 			return
 		}
 		reg.Gate = nil
+		verifhook.Set(nil)
 		// the quiescent state, probed by two more calls: exactly one of them can succeed
 		for i, k := range []string{"setT", "setF"} {
 			res := call("probe", CapOp{Kind: k})
@@ -154,14 +145,7 @@ func runCap(t *testing.T, sc *CapScenario, tr *vh.Tracer) (hang bool) {
 		}
 		tr.Emit(map[string]any{"e": "end"})
 	}
-	func() {
-		defer func() {
-			if r := recover(); r != nil && !hang {
-				panic(r)
-			}
-		}()
-		synctest.Test(t, func(t *testing.T) { body() })
-	}()
+	body()
 	return hang
 }
 
